@@ -39,7 +39,7 @@ def _dyadic(rng, bits, lo, hi):
 
 def drv_stencils_exact(tier, nfun):
     d_ = _det(Driver('C19', 'stencils.exact', bound='%d random quadratics c+g.p+p^T H p/2 in 1-5 parameters with dyadic coefficients, eps in {2^-4..2^-13} (subset of '
-                '[1e-4,1e-1]), p0 entries dyadic incl. 0, negatives and |p|<1e-6/eps (one-sided branch); the function returns exact Fractions so the only '
+                '[1e-4,1e-1]), p0 entries dyadic incl. 0, negatives and |p|<1e-6/eps (one-sided branch), every sixth case integer-valued and passed as ints / an int array; the function returns exact Fractions so the only '
                 'round-off is the final division: get_hess == H (rel 4e-15), symmetric, central get_grad == g+Hp, one-sided get_grad == g for linear '
                 'functions, p0 untouched, evaluation points = the documented stencil' % nfun))
     import numpy as np
@@ -70,6 +70,9 @@ def drv_stencils_exact(tier, nfun):
         linear = t % 4 == 3
         if linear:
             H[:] = 0.0
+        ints = t % 6 == 5        # integer-valued parameters handed over as Python ints / an int array (the result must not depend on the element type)
+        if ints:
+            p0 = [float(rng.randint(-4, 6)) for _ in range(k)]
         calls = []
 
         def f(p, *args):
@@ -81,6 +84,9 @@ def drv_stencils_exact(tier, nfun):
         info = dict(k=k, eps=eps, p0=p0, H=H.tolist(), g=g, c=c)
         cont = rng.choice(['list', 'array', 'tuple'])
         pin = list(p0) if cont == 'list' else np.array(p0) if cont == 'array' else tuple(p0)
+        if ints:
+            pin = [int(v) for v in p0] if cont == 'list' else np.array([int(v) for v in p0]) if cont == 'array' else tuple(int(v) for v in p0)
+            info['p0_element_type'] = 'int (%s)' % cont
         branch = tuple('zero' if v == 0 else 'one-sided' if v * eps < 1e-6 else 'central' for v in p0)
         key = (t, k, e, branch)
 
